@@ -391,18 +391,19 @@ Section Codec.
       assert (Hwf' : Forall wf rem) by (subst fs; apply Forall_app in Hwf; tauto).
       destruct (IH (CLive tail' fb' c') s2 rem Hok2 Hwf') as (cf & Hrun).
       { exists tail', fb', c'. repeat split; auto.
-        - intros Ht Hc. destruct (list_eq_dec Z.eq_dec s1 []) as [Hs1|Hs1].
+        - intros Ht Hc. destruct s1 as [|s0 s1'].
           + destruct c.
             * apply D1; auto.
-            * destruct (D2 Ht Hs1 eq_refl) as (_ & F & _). congruence.
-          + apply D1; auto.
-        - intros Ht Hc. destruct (list_eq_dec Z.eq_dec s1 []) as [Hs1|Hs1].
+            * destruct (D2 Ht eq_refl eq_refl) as (_ & F & _). congruence.
+          + apply D1; auto. left. discriminate.
+        - intros Ht Hc. destruct s1 as [|s0 s1'].
           + destruct c.
             * destruct (D1 Ht (or_intror eq_refl)) as (_ & F). congruence.
-            * destruct (D2 Ht Hs1 eq_refl) as (F & _ & _). subst fb'.
-              apply Hc2; [|reflexivity]. subst s1 tail'. unfold wire in E2. simpl in E2.
+            * destruct (D2 Ht eq_refl eq_refl) as (F & _ & _). subst fb'.
+              apply Hc2; [|reflexivity]. subst tail'. unfold wire in E2. simpl in E2.
               apply app_eq_nil in E2. tauto.
-          + destruct (D1 Ht (or_introl Hs1)) as (_ & F). congruence. }
+          + assert (Hne : s0 :: s1' <> []) by discriminate.
+            destruct (D1 Ht (or_introl Hne)) as (_ & F). congruence. }
       rewrite Hrun. exists cf. subst fs. rewrite map_app. reflexivity.
   Qed.
 
